@@ -873,7 +873,7 @@ where
 
     /// Current role's commit index.
     pub fn verif_commit_index(&self) -> u64 {
-        self.role.commit_index()
+        self.role.state().commit_index()
     }
 }
 
